@@ -573,8 +573,15 @@ def _extract_named_added_loss_terms(module, memo=None, prefix=""):
 
 
 def _extract_named_priors(
-    module: nn.Module, prefix: str = ""
+    module: nn.Module, prefix: str = "", memo: Optional[MutableSet[nn.Module]] = None
 ) -> Iterator[tuple[str, nn.Module, Prior, Closure, SettingClosure | None]]:
+    # a module that is reachable on several paths (a kernel shared by two sub-kernels) holds its parameters - and
+    # hence their priors - once
+    if memo is None:
+        memo = set()
+    if module in memo:
+        return
+    memo.add(module)
     if isinstance(module, Module):
         for name, (prior, closure, inv_closure) in module._priors.items():
             if prior is not None:
@@ -582,7 +589,9 @@ def _extract_named_priors(
                 yield full_name, module, prior, closure, inv_closure
     for mname, module_ in module.named_children():
         submodule_prefix = prefix + ("." if prefix else "") + mname
-        for name, parent_module, prior, closure, inv_closure in _extract_named_priors(module_, prefix=submodule_prefix):
+        for name, parent_module, prior, closure, inv_closure in _extract_named_priors(
+            module_, prefix=submodule_prefix, memo=memo
+        ):
             yield name, parent_module, prior, closure, inv_closure
 
 
